@@ -105,10 +105,7 @@ def _check_type(value: Any, type_: Any, err: str, type_vars: Dict[TypeVar_, Any]
     if type_ is None:
         return value == type_
     elif isinstance(type_, str):
-        class_name = value.__class__.__name__
-        base_class = value.__class__.__base__
-        base_class_name = base_class.__name__ if base_class is not None else None
-        return class_name == type_ or base_class_name == type_
+        return any(cls.__name__ == type_ for cls in type(value).__mro__)
 
     try:
         return _is_instance(obj=value, type_=type_, type_vars=type_vars, context=context)
